@@ -4,7 +4,7 @@
    what, operation by operation, and the guarded casts of the code. *)
 From Coq Require Import List String NArith ZArith Bool.
 From AM Require Import Rust.Ast Gen.Entry Ref.Load Ref.Sys Proofs.SysGrows Proofs.SysStatic Proofs.SysMap
-  Proofs.SysReload Tie.Erasure.
+  Proofs.SysReload Tie.Erasure Tie.Entry Rust.Script.
 Import ListNotations.
 
 Theorem C13_casts_are_guarded_by_the_type_id :
@@ -37,6 +37,13 @@ Proof. exact clear_drops_everything. Qed.
 Theorem C13_entries_reachable_through_handles_survive_loads : forall fuel s t id k e,
   cache_get s k = Some e -> cache_get (fst (fst (load_entry_f fuel s t id))) k = Some e.
 Proof. exact load_entry_never_overwrites. Qed.
+
+(* a reload replaces a value only while holding the entry's WRITE lock (no read guard can reach the
+   old value when it is swapped out and dropped): the printed `write` is accepted by the lock
+   discipline checker of C07, whose theorems (no torn read, guards pin values) then apply *)
+Theorem C13_old_value_is_replaced_under_the_write_lock :
+  writer_ok (write_script UntypedEntry_write) = true.
+Proof. exact write_accepted. Qed.
 
 (* a key found under type t was stored under type t: keys carry the type *)
 Theorem C13_lookup_is_by_type : forall a b : key, key_eqb a b = true <-> a = b.
